@@ -23,7 +23,9 @@ HEADER_LINES = 4
 CONTENTS = [b"retry=5\nhost=example\ntimeout=30\nlog_target=syslog\nfvn=r\n", b"a=1\nb=2\n", b"[S]\nx=1\n[T]\ny=2\n", b"g=0\n[S]\nx=1\n", b"[Empty]\n[S]\nx=1\n", b"k=first\n  second\n  third\nz=9\n",
             b"bare\nq=\n[S]\nbare2\n", b"# c\nk=v # t\n[S]\n# d\nk=w\n", b"", b"dup=1\ndup=2\n", b"only=1\n",
             # section names that contain brackets or blanks themselves
-            b"[[unit]]\nu=1\nv=2\n[tail]\nlast=yes\n", b"a=0\n[a b]\nx=1\n[[x]\ny=2\n[z]]\nw=3\n"]
+            b"[[unit]]\nu=1\nv=2\n[tail]\nlast=yes\n", b"a=0\n[a b]\nx=1\n[[x]\ny=2\n[z]]\nw=3\n",
+            # a section that is opened again further down, with another one in between
+            b"[net]\nhost=example\n[log]\nlevel=info\n[net]\nport=22\n", b"[S]\nx=1\n[T]\ny=2\n[S]\nz=3\n[T]\nw=4\n"]
 BAD = [b"[broken\nx=1\n", b"a=1\n[S] tail\n", b"a=1\nb=2\n[]\n", b"k v\n"]
 
 
